@@ -175,6 +175,17 @@ def gen_registry(repo):
     for n in names:
         s += "\t%r: reflect.TypeOf(cdrType.%s{}),\n" % (n, n) if False else '\t"%s": reflect.TypeOf((*cdrType.%s)(nil)).Elem(),\n' % (n, n)
     s += "}\n"
+    dn = []
+    for f in sorted(glob.glob(os.path.join(repo, "ccs_diameter/datatype/*.go"))):
+        if f.endswith("_test.go"):
+            continue
+        for m in re.finditer(r"^type\s+([A-Z]\w*)\s+struct", open(f).read(), re.M):
+            dn.append(m.group(1))
+    s = s.replace('"github.com/free5gc/chf/cdr/cdrType"\n', '"github.com/free5gc/chf/cdr/cdrType"\n\tccsdt "github.com/free5gc/chf/ccs_diameter/datatype"\n')
+    s += "\n// all struct types of ccs_diameter/datatype of the tree under test\nvar diamTypeRegistry = map[string]reflect.Type{\n"
+    for n in sorted(set(dn)):
+        s += '\t"%s": reflect.TypeOf((*ccsdt.%s)(nil)).Elem(),\n' % (n, n)
+    s += "}\n"
     return s
 
 
